@@ -257,6 +257,21 @@ func nbLoader(u string) (json.RawMessage, error) {
 // one options value without a RelativeBase, shared (read-only) by every goroutine
 var sharedNoBase = &spec.ExpandOptions{PathLoader: nbLoader}
 
+// tagged expands a reference to file:///w/r/tag.json through a loader that serves this goroutine's own content.
+func tagged(gi int) (want, got string) {
+	mine := fmt.Sprintf("owner-%d", gi)
+	loader := func(u string) (json.RawMessage, error) {
+		time.Sleep(200 * time.Microsecond)
+		return json.RawMessage(`{"definitions":{"T":{"title":"` + mine + `"}}}`), nil
+	}
+	var s spec.Schema
+	_ = json.Unmarshal([]byte(`{"properties":{"t":{"$ref":"tag.json#/definitions/T"}}}`), &s)
+	if err := spec.ExpandSchemaWithBasePath(&s, nil, &spec.ExpandOptions{RelativeBase: "file:///w/r/root.json", PathLoader: loader}); err != nil {
+		return mine, "error: " + err.Error()
+	}
+	return mine, s.Properties["t"].Title
+}
+
 var stressWarm bool
 
 // refRun: the sequential reference answers are being computed (every call then brings its own options value)
@@ -428,6 +443,14 @@ func runStress(id, g, rounds, procs int) *concObs {
 				i := (gi + r) % len(ops)
 				got, err := ops[i]()
 				answers[gi] = append(answers[gi], answer{i, got, err})
+				if r%4 == 0 {
+					// documents of the same name whose content differs from caller to caller: every
+					// goroutine reads its own through its own loader (which takes its time)
+					if w, g := tagged(gi); w != g {
+						atomic.AddInt64(&bad, 1)
+						firstBad.CompareAndSwap(nil, fmt.Sprintf("goroutine %d expanded through its own loader and got %.200s, wanted %.200s", gi, g, w))
+					}
+				}
 			}
 		}(gi)
 	}
